@@ -32,6 +32,8 @@ type c19Case struct {
 	Late    bool   `json:"late,omitempty"`   // type-specific handlers are registered only after a first message of that type has passed
 	LateAll bool   `json:"late_all,omitempty"` // ... and so are the all-types handlers
 	Reset   bool   `json:"reset,omitempty"`  // the outgoing counter is reset through the counter store before the last send
+	Remove  int    `json:"remove,omitempty"` // k > 0: the application removes its k-th handler again, with the id registration gave it, before the sends
+	Resend  bool   `json:"resend,omitempty"` // after the sends the peer asks for everything again: the retransmissions pass the handlers too
 }
 
 // failingStore wraps the memory store and logs every Save.
@@ -119,19 +121,22 @@ func c19Run(c c19Case) (string, string) {
 		return "", ""
 	}
 	var seen [][]byte // bytes each handler saw for the current send
+	var seenSeq []int // ... and the sequence number of the message it was looking at
+	ids := map[int]int64{}
 	register := func(i int, k rune) {
 		name := fmt.Sprintf("%c%d", k, i)
 		typ := simplefixgo.AllMsgTypes
 		if k == 't' {
 			typ = c.MsgType
 		}
-		w.h.HandleOutgoing(typ, func(msg simplefixgo.SendingMessage) bool {
+		ids[i] = w.h.HandleOutgoing(typ, func(msg simplefixgo.SendingMessage) bool {
 			log = append(log, name)
 			if c.Mutate {
 				msg.HeaderBuilder().SetFieldSendingTime(fmt.Sprintf("20240101-00:00:%02d.000", 10+i))
 			}
 			b, _ := msg.ToBytes()
 			seen = append(seen, append([]byte{}, b...))
+			seenSeq = append(seenSeq, msg.HeaderBuilder().MsgSeqNum())
 			vsched.Preempt()
 			return c.Refuse&(1<<i) == 0
 		})
@@ -161,6 +166,18 @@ func c19Run(c c19Case) (string, string) {
 	}
 	w.h.HandleOutgoing(other, func(msg simplefixgo.SendingMessage) bool { log = append(log, "other-type"); return true })
 	w.take()
+	removed := ""
+	if c.Remove > 0 && c.Remove <= len(c.Order) {
+		// the application takes one of its own handlers out again, with the id it was given for it; whether
+		// the library then still calls that handler is not C19's business - everything else must stay in place
+		i := c.Remove - 1
+		typ := simplefixgo.AllMsgTypes
+		if c.Order[i] == 't' {
+			typ = c.MsgType
+		}
+		_ = w.h.RemoveOutgoingHandler(typ, ids[i])
+		removed = fmt.Sprintf("%c%d", c.Order[i], i)
+	}
 	fs.armed = true
 	firstRefuser := -1
 	log = log[:0]
@@ -212,8 +229,21 @@ func c19Run(c c19Case) (string, string) {
 				}
 			}
 		}
+		if removed != "" {
+			// judged modulo the removed handler
+			drop := func(l []string) []string {
+				var o []string
+				for _, x := range l {
+					if x != removed {
+						o = append(o, x)
+					}
+				}
+				return o
+			}
+			log, exp = drop(log), drop(exp)
+		}
 		if strings.Join(log, ",") != strings.Join(exp, ",") {
-			return "handler-order", fmt.Sprintf("send %d order %s refuse %b failAt %d: called %v want %v", send, c.Order, c.Refuse, c.FailAt, log, exp)
+			return "handler-order", fmt.Sprintf("send %d order %s refuse %b failAt %d removed %q: called %v want %v", send, c.Order, c.Refuse, c.FailAt, removed, log, exp)
 		}
 		blocked := saveFails || firstRefuser >= 0
 		if blocked {
@@ -249,6 +279,34 @@ func c19Run(c c19Case) (string, string) {
 			}
 			if !bytes.Equal(b, outs[0].Msg) {
 				return "handler-saw-other-bytes", fmt.Sprintf("send %d handler %d saw %s transmitted %s", send, hi, show(b), show(outs[0].Msg))
+			}
+		}
+	}
+	if c.Resend {
+		// the peer asks for everything again: each retransmission passes the outgoing handlers like a
+		// first transmission, and what the last handler saw is what goes out
+		seen, seenSeq, log = seen[:0], seenSeq[:0], log[:0]
+		w.in(w.msg("2", "7=1", "16=0"))
+		outs := w.take()
+		if len(outs) == 0 {
+			return "resend:nothing-retransmitted", ""
+		}
+		for _, o := range outs {
+			q := seqOf(o.Msg)
+			last := -1
+			for i, sq := range seenSeq {
+				if sq == q {
+					last = i
+				}
+			}
+			if last < 0 {
+				if strings.Contains(c.Order, "A") {
+					return "resend:handlers-not-run", fmt.Sprintf("retransmission of %d passed no all-types handler: %s", q, show(o.Msg))
+				}
+				continue
+			}
+			if !bytes.Equal(seen[last], o.Msg) {
+				return "resend:handler-saw-other-bytes", fmt.Sprintf("retransmission of %d: last handler saw %s transmitted %s", q, show(seen[last]), show(o.Msg))
 			}
 		}
 	}
@@ -318,6 +376,13 @@ func runC19(R *vlib.Out) {
 						if !try(c19Case{Role: role, FailAt: failAt, Order: o, Refuse: refuse, MsgType: mt}) {
 							return
 						}
+						if refuse == 0 {
+							for k := 1; k <= len(o); k++ {
+								if !try(c19Case{Role: role, FailAt: failAt, Order: o, MsgType: mt, Remove: k}) {
+									return
+								}
+							}
+						}
 						if failAt == 0 && len(o) > 0 {
 							if !try(c19Case{Role: role, Order: o, Refuse: refuse, MsgType: mt, Late: true, LateAll: true}) ||
 								!try(c19Case{Role: role, Order: o, Refuse: refuse, MsgType: mt, Reset: true}) ||
@@ -325,6 +390,11 @@ func runC19(R *vlib.Out) {
 								!try(c19Case{Role: role, Order: o, Refuse: refuse, MsgType: mt, Late: true}) ||
 								!try(c19Case{Role: role, Order: o, Refuse: refuse, MsgType: mt, Late: true, Mutate: true}) {
 								return
+							}
+							if refuse == 0 {
+								if !try(c19Case{Role: role, Order: o, MsgType: mt, Resend: true}) || !try(c19Case{Role: role, Order: o, MsgType: mt, Resend: true, Mutate: true}) {
+									return
+								}
 							}
 						}
 					}
